@@ -1,5 +1,20 @@
 """Loading and indexing of the JSON fact files written by the cwmt-facts driver."""
 import json
+import os
+
+_FROZEN = None
+
+
+def frozen_params():
+    """{function key: [parameter names at the time the rule tables were confirmed]} (tools/freeze_params.py)"""
+    global _FROZEN
+    if _FROZEN is None:
+        _FROZEN = {}
+        p = os.path.join(os.path.dirname(os.path.abspath(__file__)), "frozen_params.json")
+        if os.path.exists(p) and not os.environ.get("CWMT_NO_FROZEN"):
+            with open(p) as fh:
+                _FROZEN = json.load(fh)
+    return _FROZEN
 
 
 class Fn:
@@ -24,6 +39,12 @@ class Fn:
             pl = n["place"]
             if not pl["p"]:
                 self.names.setdefault(pl["l"], n["name"])
+        # parameters are identified by position: a renamed parameter keeps the name the rules know it by
+        fz = frozen_params().get(self.key)
+        if fz and len(fz) == self.arg_count:
+            self.actual_arg_names = {i: self.names.get(i) for i in range(1, self.arg_count + 1)}
+            for i, nm in enumerate(fz):
+                self.names[i + 1] = nm
         self._defs = None
         self._cfg = None
         self.promoted = {}
